@@ -7,10 +7,13 @@
    refuted for the code as it is once a crash may hit the legacy bootstrap.
 2. Real SQLite files are built in every start state (prefix databases by the real run_migrations over
    the first k real SQL files; legacy databases in two construction styles), the real run_migrations
-   is run three times (new connection per call / one connection / two alternating connections), and
-   killed right before every one of its SQL statements (fork + os._exit from sqlite3's statement trace)
-   followed by two more runs; crash schedules enumerated by TLC (state graph of the crash model,
-   covering paths) are concretised to statement indices and executed as well.
+   is run three times (new connection per call / one connection / two alternating connections;
+   thorough: also through SqliteWorkflowStore.run_migrations), and it is killed right before every one
+   of its SQL statements -- the database file and its WAL are copied aside from inside sqlite3's
+   statement trace callback, which is what the disk holds if the process dies there (checked against
+   real fork + os._exit kills for a sample of points) -- and, again, inside the re-run; two more runs
+   follow each kill.  Crash schedules enumerated by TLC (state graph of the crash model, covering paths)
+   are concretised to statement indices and executed as well.
 3. Every recorded trace is judged by Obs_C28.tla and validated against TraceMigrations.tla by TLC.
 """
 from __future__ import annotations
@@ -295,10 +298,15 @@ def run(chk):
     # 2d. real kills (fork + os._exit right before the statement) for a sample of kill points: the file
     #     snapshots used above must be what a killed process really leaves behind
     n_real_kill = 0
-    for start in (("fresh", 0, "-"),) if chk.quick else starts:
+    # (process creation costs ~0.1-1 s in this sandbox, hence a sample: quick 2 points, thorough every statement of
+    #  the legacy witness start and every other statement of the fresh start)
+    for start in (("fresh", 0, "-"),) if chk.quick else (("legacy", min(3, n), "scripts"), ("fresh", 0, "-")):
         tr, db = new_trace(start, "newconn")
         points = db.kill_points(snapdir=str(chk.work / "snaps4"))
-        idxs = sorted({len(points) // 3, len(points) - 2}) if chk.quick else range(len(points) - 1)
+        if chk.quick:
+            idxs = sorted({len(points) // 3, len(points) - 2})
+        else:
+            idxs = range(0, len(points) - 1, 1 if start[0] == "legacy" else 2)
         for idx in idxs:
             tr, db = new_trace(start, "newconn")
             how, info = db.crash(idx)
